@@ -22,6 +22,7 @@ class Branch:
         self.lineno = lineno
         self.how = how          # 'is' | 'isinstance'
         self.paths = []         # list of Path
+        self.opaque = False
 
     def __repr__(self):
         return '<branch %s @%d>' % ('/'.join(self.kinds), self.lineno)
@@ -40,7 +41,48 @@ class Path:
         return ' and '.join(('' if p else 'not ') + t for t, p in self.conds) or 'always'
 
 
+class ShapeUnrecognised(AnalysisError):
+    """the function is not (any more) a dispatch loop of the recognised form: the structural rules do not apply to it (the
+    interpreted layout model decides its behaviour)"""
+
+
+def _terminates(stmts):
+    """every path through the statement list leaves the loop iteration (continue / return / raise / break)"""
+    if not stmts:
+        return False
+    last = stmts[-1]
+    if isinstance(last, (ast.Continue, ast.Return, ast.Raise, ast.Break)):
+        return True
+    if isinstance(last, ast.If):
+        return _terminates(last.body) and _terminates(last.orelse)
+    return False
+
+
+class NullMachine:
+    """stand-in for a machine whose shape was not recognised: no branches, no structural facts"""
+    exact = False
+
+    def __init__(self, fn, reason):
+        self.fn = fn
+        self.reason = reason
+        self.loop = fn.node
+        self.stack = 'triplestack'
+        self.indent_var, self.mode_var, self.doc_var = 'indent', 'mode', 'doc'
+        self.branches = []
+        self.default = None
+        self.pre_events = []
+
+    def branch(self, kind):
+        return None
+
+    def kinds(self):
+        return []
+
+
 class StackMachine:
+    exact = True
+    reason = ''
+
     def __init__(self, fn, loop, stack, vars3, branches, default, pre_events):
         self.fn = fn
         self.loop = loop
@@ -118,7 +160,7 @@ def find_machine(fninfo, singletons=('NIL', 'HARDLINE')):
             if loop:
                 break
     if loop is None:
-        raise AnalysisError('%s: no stack-pop loop found (anchor shape vanished)' % fninfo.key)
+        raise ShapeUnrecognised('%s: no stack-pop loop found' % fninfo.key)
     wl, popst, (stack, vars3) = loop
     docv = vars3[2]
     idx = wl.body.index(popst)
@@ -166,8 +208,8 @@ def find_machine(fninfo, singletons=('NIL', 'HARDLINE')):
         while True:
             k = kind_of(cur.test)
             if k is None:
-                raise AnalysisError('%s:%d: dispatch test %r is not a recognised kind test'
-                                    % (fninfo.module.relpath, cur.lineno, src(cur.test)))
+                raise ShapeUnrecognised('%s:%d: dispatch test %r is not a recognised kind test'
+                                        % (fninfo.module.relpath, cur.lineno, src(cur.test)))
             branches.append(Branch(k[0], cur.test, cur.body, cur.lineno, k[1]))
             if len(cur.orelse) == 1 and isinstance(cur.orelse[0], ast.If) \
                     and kind_of(cur.orelse[0].test) is not None:
@@ -178,16 +220,32 @@ def find_machine(fninfo, singletons=('NIL', 'HARDLINE')):
             return
 
     pre = []
-    for st in rest:
+    inexact = ''
+    for i, st in enumerate(rest):
         if isinstance(st, ast.If) and kind_of(st.test) is not None:
+            if default is not None:
+                inexact = 'a kind test follows the default branch'
             chain(st)
+        elif branches and default is None and all(_terminates(b.body) for b in branches) \
+                and not any(isinstance(x, ast.If) and kind_of(x.test) is not None for x in rest[i:]):
+            # guard-clause form: every kind branch leaves the iteration, what follows is the default branch
+            default = rest[i:]
+            break
         else:
             pre.append(st)
+            inexact = 'line %d: a statement of the loop body is not part of the kind dispatch' % st.lineno
     if not branches:
-        raise AnalysisError('%s: no dispatch branches found' % fninfo.key)
+        raise ShapeUnrecognised('%s: no dispatch branches found' % fninfo.key)
     m = StackMachine(fninfo, wl, stack, vars3, branches, default, pre)
+    local = set(fninfo.module.funcs)
     for b in branches:
         b.paths = enumerate_paths(b.body, stack, {})
+        # a branch whose effect on the stack is not visible here (pushed through a helper, or in a form that is not a plain triple)
+        b.opaque = any(e[0] == 'push?' or (e[0] == 'call' and e[1] in local and (stack in e[2] or stack in e[3].values()))
+                       for p in b.paths for e in p.events)
+    if inexact:
+        m.exact = False
+        m.reason = inexact
     return m
 
 
